@@ -85,8 +85,9 @@ Init == blk \in 1..NBLK /\ i = 0
 Next == i = 0 /\ i' \in { k \in 1..N : (k % NBLK) + 1 = blk } /\ UNCHANGED blk
 Spec == Init /\ [][Next]_<<blk,i>>
 
-Emit == i = 0 \/ PrintT(ToJson([i |-> Cases[i].i, v |-> Verdict(Cases[i])]))
 DesignTags == { Tag(d, rt) : d \in {"D:pyerr","D:value","D:class"}, rt \in {"pa","ld","da","dv"} }
-DesignOK == i = 0 \/ LET v == Verdict(Cases[i]) IN
-   \A j \in 1..Len(v) : \A t \in 1..Len(v[j]) : \A u \in 1..Len(v[j][t]) : v[j][t][u] \notin DesignTags
+\* ONE invariant: judge once, print, check the design-level clause
+Judged == i = 0 \/ LET v == TLCEval(Verdict(Cases[i])) IN
+   /\ PrintT(ToJson([i |-> Cases[i].i, v |-> v]))
+   /\ \A j \in 1..Len(v) : \A t \in 1..Len(v[j]) : \A u \in 1..Len(v[j][t]) : v[j][t][u] \notin DesignTags
 =============================================================================
